@@ -78,19 +78,19 @@ class BilinearForm(Form):
 
         # initialize COO data structures
         sz = ubasis.Nbfun * vbasis.Nbfun * nt
-        data = np.zeros((ubasis.Nbfun, vbasis.Nbfun, nt), dtype=self.dtype)
+        data = np.zeros((vbasis.Nbfun, ubasis.Nbfun, nt), dtype=self.dtype)
         rows = np.zeros(sz, dtype=np.int32)
         cols = np.zeros(sz, dtype=np.int32)
 
         # loop over the indices of local stiffness matrix
         for j in range(ubasis.Nbfun):
             for i in range(vbasis.Nbfun):
-                ixs = slice(nt * (vbasis.Nbfun * j + i),
-                            nt * (vbasis.Nbfun * j + i + 1))
+                ixs = slice(nt * (ubasis.Nbfun * i + j),
+                            nt * (ubasis.Nbfun * i + j + 1))
                 rows[ixs] = vbasis.element_dofs[i]
                 cols[ixs] = ubasis.element_dofs[j]
                 if self.nthreads <= 0:
-                    data[j, i, :] = self._kernel(
+                    data[i, j, :] = self._kernel(
                         ubasis.basis[j],
                         vbasis.basis[i],
                         wdict,
@@ -153,7 +153,7 @@ class BilinearForm(Form):
     def _threaded_kernel(self, data, ix, ubasis, vbasis, wdict, dx):
         for ij in ix:
             i, j = ij
-            data[j, i] = self._kernel(
+            data[i, j] = self._kernel(
                 ubasis[j],
                 vbasis[i],
                 wdict,
